@@ -67,12 +67,13 @@ def run(ctx, f, rep):
         (rep.ok if o.ok else rep.bad)("R20.3", o.key.replace(o.rule, "R20.3", 1), o.what, o.loc, o.detail)
     # R20.4
     total = 0
-    for suffix in ("util::greet_exchange::{closure#0}", "util::ready_exchange::{closure#0}", "util::peer_connected::{closure#0}"):
-        bs = [b for b in f.bodies if b.path.endswith(suffix)]
-        if not bs:
-            rep.bad("R20.4", "R20.4|%s|anchor" % suffix, "%s not found (anchor-missing)" % suffix)
+    from . import hs
+    for role, label in (("greet", "greet_exchange"), ("ready", "ready_exchange"), ("driver", "peer_connected")):
+        hb = hs.co(f, role)
+        if hb is None:
+            rep.bad("R20.4", "R20.4|%s|anchor" % label, "%s (found by signature) not found (anchor-missing)" % label)
             continue
-        total += guards_at_yields(f, rep, bs[0], suffix.split("::")[1])
+        total += guards_at_yields(f, rep, hb, label)
     impls = trait_impls(f, "MultiPeerBackend", "peer_connected")
     rep.floor("R20.4", "peer_connected impls", len(impls), 6)
     for ty, outer in sorted(impls.items()):
